@@ -1,0 +1,36 @@
+//! Verification hooks (compiled only with `--cfg datadog_dd_native_iast_rewriter_js_verif`).
+//!
+//! The crate is `cdylib`-only, its modules are private and its public entry points take
+//! wasm `JsValue`s, so a native verification harness cannot reach the rewriter. This module
+//! re-exports the already-`pub` items the harness needs and keeps a thread-local tap where
+//! `transform_js` deposits the syntax tree before and after the transformation.
+//! With the cfg flag off none of this exists.
+use std::cell::RefCell;
+use swc_ecma_ast::Program;
+
+pub use crate::rewriter::verif as rewriter_hooks;
+pub use crate::rewriter::{
+    generate_prefix_stmts, print_js, rewrite_js, Config, OriginalSourceMap, RewrittenOutput,
+};
+pub use crate::telemetry::{Telemetry, TelemetryVerbosity};
+pub use crate::transform::transform_status::{Status, TransformStatus};
+pub use crate::util::{file_name, parse_source_map, rnd_string, DefaultFileReader, FileReader};
+pub use crate::visitor::csi_methods::{CsiMethod, CsiMethods};
+pub use crate::visitor::literal_visitor::{LiteralInfo, LiteralLocation, LiteralsResult};
+
+#[cfg(not(feature = "napi"))]
+pub use crate::lib_wasm::verif as wasm_hooks;
+
+thread_local! {
+    static TAPS: RefCell<Vec<(&'static str, Program)>> = const { RefCell::new(Vec::new()) };
+}
+
+/// Called from `transform_js` (cfg-guarded) with the tree as it is at that point.
+pub fn tap(stage: &'static str, program: &Program) {
+    TAPS.with(|t| t.borrow_mut().push((stage, program.clone())));
+}
+
+/// Returns and clears everything tapped on this thread since the last call.
+pub fn take_taps() -> Vec<(&'static str, Program)> {
+    TAPS.with(|t| std::mem::take(&mut *t.borrow_mut()))
+}
